@@ -1750,7 +1750,22 @@ func descriptorKindsAgree(p *Program, fn *ssa.Function, c ssa.CallInstruction, k
 		return false, "the function value is not read from a descriptor field"
 	}
 	var globals []*ssa.Global
-	switch x := fa.X.(type) {
+	base := fa.X
+	// a descriptor passed BY VALUE is spilled to a local: `*t0 = kind; &t0.addReference`
+	if al, ok := base.(*ssa.Alloc); ok && al.Referrers() != nil {
+		var par *ssa.Parameter
+		n := 0
+		for _, u := range *al.Referrers() {
+			if st, ok := u.(*ssa.Store); ok && st.Addr == ssa.Value(al) {
+				n++
+				par, _ = st.Val.(*ssa.Parameter)
+			}
+		}
+		if n == 1 && par != nil {
+			base = par
+		}
+	}
+	switch x := base.(type) {
 	case *ssa.Global:
 		globals = append(globals, x)
 	case *ssa.Parameter:
@@ -1759,7 +1774,11 @@ func descriptorKindsAgree(p *Program, fn *ssa.Function, c ssa.CallInstruction, k
 			if idx < 0 || idx >= len(cs.Common().Args) {
 				return false, "descriptor argument not found at a call site"
 			}
-			g, isG := cs.Common().Args[idx].(*ssa.Global)
+			a := cs.Common().Args[idx]
+			if ld2, ok := a.(*ssa.UnOp); ok && ld2.Op == token.MUL {
+				a = ld2.X // the value of a package-level descriptor
+			}
+			g, isG := a.(*ssa.Global)
 			if !isG {
 				return false, fmt.Sprintf("the descriptor handed in at %s is not a package-level variable", p.pos(cs.Pos()))
 			}
